@@ -59,6 +59,7 @@ extern int yv_fail_mode;          /* 0 = only that one, 1 = that one and all lat
 extern long yv_live;              /* live tracked allocations */
 extern long yv_fail_hits;         /* number of injected failures so far */
 void yv_alloc_reset(void);
+extern void* yv_fail_bt[12]; extern int yv_fail_bt_n;   /* backtrace of the first injected failure */
 
 /* ---------- harness-owned clock (stopwatch.c is compiled with -Dclock_gettime=yv_clock_gettime) ---------- */
 extern int yv_clock_virtual;      /* 0 = real clock */
